@@ -101,7 +101,11 @@ RangeUnitOutcome(ts) ==
         THEN ValS(Cat(p.unit)) ELSE AnyOut
 
 (* -------------------------------------------------------------------- Content-Length *)
-CLenTokens == Digits \cup {"-", "+", SP, ",", "x", "_"}
+(* Content-Length = 1*DIGIT, ASCII digits only.  Characters that merely look like digits (the latin-1
+   superscripts, spelled \u{hex}) and digit runs beyond what an integer conversion accepts (spelled
+   \r{char*count}, expanded by the harness) are not in Digits / exceed the 9-digit cap: value-or-400. *)
+CLenOdd    == {"\\u{b2}", "\\u{b3}", "\\u{b9}", "\\r{9*4300}", "\\r{9*4301}", "\\r{1*5000}"}
+CLenTokens == Digits \cup {"-", "+", SP, ",", "x", "_"} \cup CLenOdd
 CLenOutcome(ts) == IF IsNum(ts) THEN ValI(<<NumVal(ts)>>) ELSE AnyOut
 
 (* ------------------------------------------------------------------ entity-tag lists *)
